@@ -50,6 +50,7 @@ package mfs
 //  - the node taken from the source is the one added at the destination;
 //  - after a successful Mv the source entry is gone unless source and destination are the same
 //    entry of the same directory (the only success path that skips the final Unlink);
+//  - a directory is never added to itself (the final Unlink would drop the whole sub-tree);
 //  - a failed Mv that met no storage fault has not edited the tree;
 //  - Mv fails only when one of its steps answered with an error.
 //@ func Mv
@@ -64,6 +65,7 @@ package mfs
 //@   site[add_to_destination] call:Directory.AddChild : arg0 == dstDir && arg1 == dstFname && arg2 == nd
 //@   site[into_existing_directory] call:Directory.AddChild : res("call:Directory.Child#1", 1) == nil && typeis(res("call:Directory.Child#1", 0), "*Directory") ==> arg0 == unbox(res("call:Directory.Child#1", 0), "*Directory") && arg1 == srcFname
 //@   site[moved_node_is_the_source_node] call:Directory.AddChild : arg2 == res("invoke:FSNode.GetNode#0", 0) && res("invoke:FSNode.GetNode#0", 1) == nil
+//@   site[never_into_the_moved_directory] call:Directory.AddChild : !(typeis(srcObj, "*Directory") && arg0 == unbox(srcObj, "*Directory"))
 //@   ensures[logical_failure_is_atomic] err != nil && !fault() ==> edits() == old(edits())
 //@   ensures[errors_have_a_cause] err != nil ==> failed()
 //@   ensures[success_edits] err == nil ==> edits() > old(edits())
